@@ -591,6 +591,18 @@ func c12MemberFiles(r *Rng) map[string]string {
 			}
 		}
 	}
+	// a colon method of the table that reaches the table's own members through self, directly and from functions nested
+	// in the method
+	var own []string
+	for _, ch := range chains {
+		if strings.Count(ch, ".") == 1 {
+			own = append(own, ch[strings.Index(ch, ".")+1:])
+		}
+	}
+	if len(own) > 0 && r.Bool() {
+		k1, k2 := r.Pick(own), r.Pick(own)
+		fmt.Fprintf(&sb, "function %s:meth%d(n)\n  local function nested%d()\n    return self.%s\n  end\n  self.%s = nested%d()\n  return function()\n    return self.%s, n\n  end\nend\n", root, k, k, k1, k1, k, k2)
+	}
 	n := r.Range(2, 6)
 	for i := 0; i < n && len(chains) > 0; i++ {
 		a, b := r.Pick(chains), r.Pick(chains)
